@@ -166,7 +166,7 @@ def replay_one(obj, ctx, opts):
         if tuple(upd) != want_upd:
             out.append(("C14", "returned-hashes-are-not-the-updated-path-root-to-leaf",
                         {"action": a, "key": key, "len": len(upd), "want_len": len(want_upd)}))
-            upd = want_upd      # keep the proof stream meaningful
+            # (the proof below is fed what the tree really returned: C15 is about the pair)
         if proof is not None:
             count("proof.update")
             before = proof_state(proof)
@@ -210,6 +210,22 @@ def replay_one(obj, ctx, opts):
         other = smt.SparseMerkleTree.from_db(tree.db, tree.root_hash, key_size=ksize, default=default)
     except Exception as e:  # noqa
         out.append(("C14", "from_db-raised", {"exc": type(e).__name__}))
+    if other is not None and st["look"]:
+        # mirror only: a write through the reopened tree lands in the database it was opened over
+        try:
+            k0 = bits_to_bytes(st["look"][0]["k"])
+            probe = smt.SparseMerkleTree.from_db(tree.db, tree.root_hash, key_size=ksize, default=default)
+            before = dict(tree.db)
+            probe.set(k0, b"probe-value")
+            again = smt.SparseMerkleTree.from_db(tree.db, probe.root_hash, key_size=ksize, default=default)
+            if again.get(k0) != b"probe-value":
+                out.append(("mirror", "write-through-reopened-tree-not-readable-from-the-shared-db", {}))
+            tree.db.clear()
+            tree.db.update(before)
+        except Exception as x:  # noqa
+            out.append(("mirror", "write-through-reopened-tree-not-readable-from-the-shared-db", {"exc": type(x).__name__}))
+            tree.db.clear()
+            tree.db.update(before)
     for e in st["look"]:
         key = bits_to_bytes(e["k"])
         for t, label in ((tree, "tree"), (other, "from_db")):
